@@ -236,7 +236,7 @@ class sut:
 
 
 def hyp_search(fn, strategy, *, seed, max_examples, rec, known, shrink=True, max_rounds=5,
-               stateful_step_count=None):
+               shrink_budget=200):
     """Run fn(case) over generated cases. fn raises Violation on oracle failure.
 
     Known finding keys are counted and treated as passes so the search continues behind them.
@@ -253,8 +253,16 @@ def hyp_search(fn, strategy, *, seed, max_examples, rec, known, shrink=True, max
     swallowed = set()
     for rnd in range(max_rounds):
         last = {}
+        failing = set()   # hashes of cases seen failing in this round
+        calls = [0]       # executions since the first failure
 
         def body(case):
+            if last:
+                calls[0] += 1
+                # shrink budget: once exhausted only cases already seen failing still fail, so the
+                # shrinker converges at once and its final replay of the best case stays consistent
+                if calls[0] > shrink_budget and case_hash(case) not in failing:
+                    return
             try:
                 fn(case)
             except Violation as v:
@@ -263,8 +271,12 @@ def hyp_search(fn, strategy, *, seed, max_examples, rec, known, shrink=True, max
                     return
                 if v.key in swallowed:
                     return
+                if last and v.key != last["v"].key and calls[0] > 0:
+                    # a different root cause met while shrinking: keep shrinking the first one
+                    return
                 last["v"] = v
                 last["case"] = case
+                failing.add(case_hash(case))
                 raise
 
         test = given(strategy)(body)
@@ -496,7 +508,7 @@ def main_check(prop, modname, tier, seed, replay_path=None):
 def _replay_case(mod, data):
     """Re-execute a saved case through the check's plain executor; returns failures."""
     case = data["case"] if isinstance(data, dict) and "case" in data else data
-    fails = mod.replay(case) or []
+    fails = mod.replay(from_jsonable(case)) or []
     return fails
 
 
